@@ -869,7 +869,9 @@ func (m *Machine) OpImportScript(t *rapid.T) {
 
 // OpSetSyncedTo moves the sync stamp.
 func (m *Machine) OpSetSyncedTo(t *rapid.T, fate Fate) {
-	h := m.SyncedTo.Height + int32(rapid.IntRange(-1, 1).Draw(t, "syncDelta"))
+	// forward one block at a time (as the wallet does once it follows the
+	// chain), backward by up to three (a reorg)
+	h := m.SyncedTo.Height + int32(rapid.SampledFrom([]int{1, 1, 1, 1, 0, -1, -2, -3}).Draw(t, "syncDelta"))
 	if h < 0 {
 		h = 0
 	}
@@ -885,6 +887,25 @@ func (m *Machine) OpSetSyncedTo(t *rapid.T, fate Fate) {
 		m.SyncedTo = bs
 	} else {
 		m.N["set-synced-to-rolled-back"]++
+	}
+}
+
+// AdvanceSync connects n more blocks (committed), so that the sync point has
+// remembered hashes behind it.
+func (m *Machine) AdvanceSync(n int) {
+	for i := 0; i < n; i++ {
+		h := m.SyncedTo.Height + 1
+		var hash chainhash.Hash
+		hash[0], hash[1], hash[2] = byte(h), byte(h>>8), 0xad
+		bs := waddrmgr.BlockStamp{Height: h, Hash: hash, Timestamp: m.Birthday.Add(0)}
+		err, committed := m.Tx(Commit, func(ns walletdb.ReadWriteBucket) error { return m.Mgr.SetSyncedTo(ns, &bs) })
+		if err != nil || !committed {
+			m.Violation("SetSyncedTo(%d) failed: %v", h, err)
+		}
+		m.SyncedTo = bs
+	}
+	if n > 0 {
+		m.Case.Logf("sync point advanced by %d blocks to %d", n, m.SyncedTo.Height)
 	}
 }
 
